@@ -47,7 +47,7 @@ pub fn load_known() -> Vec<Known> {
 }
 
 /// A generic failing case of any engine.
-#[derive(Clone, Debug)]
+#[derive(Clone, Debug, serde::Serialize, serde::Deserialize)]
 pub struct Failure {
     pub prop: String,
     /// class of the failure; matched against KNOWN_FINDINGS signatures
